@@ -36,12 +36,14 @@ def var_prefix(n):
     return bytes([n]) if n < 255 else b"\xff" + u16(n)
 
 
-def enc_value(ie, tok):
-    """wire bytes of a well-typed value token for element ie (template length semantics)"""
+def enc_value(ie, tok, long_prefix=False):
+    """wire bytes of a well-typed value token for element ie (template length semantics); long_prefix: a variable-length
+    value is sent with the three-octet length form (255, length as 16 bits) whatever its length - RFC 7011 section 7
+    allows that form for short values too, only this library's own encoder never produces it"""
     kind, rest = tok[0], tok[1:]
     if ie.len == 65535:
         b = bytes.fromhex(rest) if rest != "-" else b""
-        return var_prefix(len(b)) + b
+        return (b"\xff" + u16(len(b)) if long_prefix else var_prefix(len(b))) + b
     if kind == "n":
         return int(rest).to_bytes(G.WIDTH[ie.ty], "big")
     if kind in "tf":
@@ -54,5 +56,5 @@ def enc_value(ie, tok):
     return b
 
 
-def record_bytes(ies, toks):
-    return b"".join(enc_value(ie, t) for ie, t in zip(ies, toks))
+def record_bytes(ies, toks, rng=None, p_long=0.0):
+    return b"".join(enc_value(ie, t, rng is not None and rng.random() < p_long) for ie, t in zip(ies, toks))
